@@ -51,7 +51,8 @@ TEMPLATES = {
     "duprows": {"angles": [30, -90, 150], "cons": [("loose", {"PS-A": 1, "PS-B": 1}, 60.0), ("x", {"PS-C": 1, "PS-A": -1}, 30.3), ("tight", {"PS-A": 1, "PS-B": 1}, 40.5)]},
     "none": {"angles": [30, -90, 150], "cons": []},
 }
-ORDERS = [["PS-A", "PS-B", "PS-C"], ["PS-C", "PS-A", "PS-B"]]
+# quick uses the first two registration orders, thorough all six
+ORDERS = [["PS-A", "PS-B", "PS-C"], ["PS-C", "PS-A", "PS-B"], ["PS-B", "PS-C", "PS-A"], ["PS-A", "PS-C", "PS-B"], ["PS-B", "PS-A", "PS-C"], ["PS-C", "PS-B", "PS-A"]]
 TOLS = [(1e-5, 1e-7), (1e-3, 1e-7), (1e-5, 1e-4), (1e-3, 1e-4), (0.0, 0.0), (0.0, 1e-4)]
 
 
@@ -61,10 +62,13 @@ def probe_scale(tj, lim):
 
 LATTICE = (0.0, 8.0, 16.0, 32.0)
 FS = (-3, 0.5, 0.9, 1.1, 2, 10)
+LATTICE_T = (0.0, 6.0, 8.0, 16.0, 24.0, 32.0)
+FS_T = (-30, -3, -1, 0.5, 0.8, 0.9, 1.1, 1.2, 2, 5, 10, 100)
 
 
 def bounds(tier, seed):
-    return {"templates": list(TEMPLATES), "orders": ORDERS, "tolerances": TOLS, "lattice": LATTICE, "offsets_in_tolerances": FS, "periods_per_schedule": [1, 2, 3]}
+    th = tier == "thorough"
+    return {"templates": list(TEMPLATES), "orders": ORDERS if th else ORDERS[:2], "tolerances": TOLS, "lattice": LATTICE_T if th else LATTICE, "offsets_in_tolerances": FS_T if th else FS, "periods_per_schedule": [1, 2, 3]}
 
 
 def build(tname, order, tol):
@@ -115,11 +119,12 @@ def lin_oracle(tname, cols, tol):
     return True
 
 
-def points(tname, tol):
+def points(tname, tol, tier="quick"):
     """test columns (dict station->amps): lattice + boundary-aligned points"""
     t = TEMPLATES[tname]
     pts = []
-    for v in itertools.product(LATTICE, repeat=3):
+    lattice, fs = (LATTICE_T, FS_T) if tier == "thorough" else (LATTICE, FS)
+    for v in itertools.product(lattice, repeat=3):
         pts.append(("lat", dict(zip(ST, v))))
     for v in itertools.product(LATTICE, repeat=3):
         if not any(v):
@@ -130,7 +135,7 @@ def points(tname, tol):
             if m < 1e-9:
                 continue
             tj = max(tol[0], tol[1] * lim)
-            for f in FS:
+            for f in fs:
                 lam = (lim + tj + (f - 1) * probe_scale(tj, lim)) / m
                 pts.append(("bnd%d:%s" % (j, f), {st: lam * d[st] for st in ST}))
     return pts
@@ -138,19 +143,20 @@ def points(tname, tol):
 
 def space(tier, seed):
     items = []
+    thorough = tier == "thorough"
     for tname in TEMPLATES:
-        for oi in range(len(ORDERS)):
+        for oi in range(len(ORDERS) if thorough else 2):
             for ti in range(len(TOLS)):
                 for mode in (1, 2, 3):  # periods per schedule
-                    if (0.0 in TOLS[ti] and mode == 3) or (tname == "duprows" and (ti in (1, 2, 5) or (oi == 1 and mode > 1))):
+                    if not thorough and ((0.0 in TOLS[ti] and mode == 3) or (tname == "duprows" and (ti in (1, 2, 5) or (oi == 1 and mode > 1)))):
                         continue  # keeps the quick tier short; these corners add no new code path
-                    it = {"tpl": tname, "order": oi, "tol": ti, "T": mode}
+                    it = {"tpl": tname, "order": oi, "tol": ti, "T": mode, "tier": tier}
                     if 0.0 in TOLS[ti]:
                         it["nettol"] = 3
                     items.append(it)
     items.append({"tpl": "none", "order": 0, "tol": 0, "T": 0, "algos": True})
     for tname in ("deltawye", "single", "fractional"):
-        for oi in range(len(ORDERS)):
+        for oi in range(len(ORDERS) if thorough else 2):
             for ti in (0, 3):
                 items.append({"tpl": tname, "order": oi, "tol": ti, "T": 1, "hist": True})
     return items
@@ -327,7 +333,7 @@ def execute(item, acc=None, only=None):
     net_tol = TOLS[item["nettol"]] if item.get("nettol") is not None else tol
     net, iface = build(tname, order, net_tol)
     zero = {st: 0.0 for st in ST}
-    pts = points(tname, tol)
+    pts = points(tname, tol, item.get("tier", "quick"))
     if not TEMPLATES[tname]["cons"]:
         # unconstrained: everything is feasible, Interface describes the network
         try:
@@ -383,7 +389,7 @@ def replay(scn):
     if scn.get("hist"):
         return [{"signature": s, "what": w, "observed": o, "expected": e} for s, w, _, o, e in execute({k: scn[k] for k in ("tpl", "order", "tol", "T", "hist")})]
     only = scn.get("point", {}).get("cols")
-    item = {k: scn[k] for k in ("tpl", "order", "tol", "T", "nettol") if k in scn}
+    item = {k: scn[k] for k in ("tpl", "order", "tol", "T", "nettol", "tier") if k in scn}
     viol = execute(item, None, only=only)
     if not viol:
         # the verdict may depend on what the SAME Interface/network objects were asked before this point
